@@ -485,3 +485,16 @@ Theorem C06_spec_smod_signed a b : in_word a -> in_word b -> b <> 0 ->
   0 <= Word.to_signed (evm_smod a b) * Word.to_signed a.
 Proof. exact (spec_smod_signed a b). Qed.
 Print Assumptions C06_spec_smod_signed.
+
+(* SIGNEXTEND b x, bit by bit: bits below 8(b+1) are those of x, every bit from there to 255 is bit 8(b+1)-1 of x;
+   identity for b >= 31; words to words *)
+Theorem C06_spec_signextend_bits b x i : 0 <= b < 31 -> in_word x -> 0 <= i < 256 ->
+  Z.testbit (evm_signextend b x) i =
+    if i <? 8 * (b + 1) then Z.testbit x i else Z.testbit x (8 * (b + 1) - 1).
+Proof. exact (spec_signextend_bits b x i). Qed.
+Print Assumptions C06_spec_signextend_bits.
+
+Theorem C06_spec_signextend_id_closed b x : 0 <= b -> in_word x ->
+  in_word (evm_signextend b x) /\ (31 <= b -> evm_signextend b x = x).
+Proof. intros Hb Hx; split; [exact (spec_signextend_closed b x Hb Hx) | exact (spec_signextend_id b x)]. Qed.
+Print Assumptions C06_spec_signextend_id_closed.
